@@ -50,7 +50,7 @@ CHECKS = {
         "cmd": "c10", "flavours": ["checked", "release"], "level": "exploration", "engine_name": "vh-seq", "design_ref": "DESIGN.md §4 C10",
         "budget": {"quick": 20, "thorough": 300},
         "technique": "runtime monitoring: real SimpleDominanceChecker against a naive recorded-list Pareto model (exhaustive short query sequences + random long ones); differential solver runs with/without checker judged by the optimum",
-        "rule": "(a) real SimpleDominanceChecker over a test Dominance (2 keys + one key-less state, coordinates {0,1,2}x{0,1}, values {0,1,2}, use_value on and off): every query sequence up to length 3 (quick) / 4 (thorough) over the 37-query universe, and random sequences of 5..200 queries over two depths; reference = list of all states presented so far: dominated iff some presented state of the same key/depth is >= everywhere and > somewhere; threshold >= value and the state presented at the threshold is dominated by the reference; comparator consistency for all pairs (partial_cmp vs reference, cmp ranks a dominating state first). (b) solver level: families T and K with exact and weakened admissible rules, sequential and free-running parallel, same configuration with and without checker vs the optimum. Non-trivial: (a) sequence with >= 1 dominated verdict and >= 1 eviction, (b) run in which >= 1 node was discarded by dominance (counted by a wrapper).",
+        "rule": "(a) real SimpleDominanceChecker over a test Dominance (2 keys + one key-less state, coordinates {0,1,2}x{0,1}, values {0,1,2}, use_value on and off): every query sequence up to length 3 (quick) / 4 (thorough) over the 37-query universe, and random sequences of 5..200 queries over two depths; reference = list of all states presented so far: dominated iff some presented state of the same key/depth is >= everywhere and > somewhere; threshold >= value and the state presented at the threshold is dominated by the reference; comparator consistency for all pairs (partial_cmp vs reference, cmp ranks a dominating state first). (b) solver level: families T and K with exact and weakened admissible rules, sequential, free-running parallel and parallel under the controlled scheduler (random schedules with the dominance queries and cache operations as yield points), same configuration with and without checker vs the optimum. Non-trivial: (a) sequence with >= 1 dominated verdict and >= 1 eviction, (b) run in which >= 1 node was discarded by dominance (counted by a wrapper).",
         "level_text": "Exploration, exhaustive over short query sequences on a small alphabet; solver-level differential runs judged by the exhaustive optimum.",
         "level_note": "Trusted: the naive reference (transitivity of dominance makes 'all presented' equivalent to 'Pareto front').",
         "assumptions": COMMON_ASSUMPTIONS,
@@ -117,7 +117,7 @@ CHECKS = {
         "budget": {"quick": 30, "thorough": 600},
         "addons": ["tsan_par", "miri_par"],
         "technique": "runtime monitoring under a controlled scheduler: the real ParallelSolver is driven through replayable schedules of its critical sections (bounded-deviation DFS, PCT, random) and judged by the exhaustive optimum; plus delay-injected free-running stress; TSan and Miri on the same workload (thorough)",
-        "rule": "tiny instances whose sequential B&B explores 3..40 sub-problems (families T/K/P/Q, all diagram types, cache on/off, both fringes, widths 1..2, 1..4 workers). Per (instance, configuration): stateless DFS over all schedules deviating at most 1 (quick) / 2 (thorough) times from a default policy (sticky or rotating), capped at 60/400 schedules, + 6/20 random + 3/10 PCT schedules; yield points = every acquisition of the critical mutex, condvar wait/notify, cutoff polls (per layer) and optionally cache reads/writes. A quarter of the shards run free threads (2..16) with injected delays on small instances. Verdict: is_exact and value == exhaustive optimum, no panic. Non-trivial = schedule in which >= 2 different workers processed >= 1 node each; distinct by (instance, configuration, hash of the (worker, site) grant sequence).",
+        "rule": "tiny instances whose sequential B&B explores 3..40 sub-problems (families T/K/P/Q, all diagram types, cache on/off, both fringes, widths 1..2, 1..4 workers). Per (instance, configuration): stateless DFS over all schedules deviating at most 1 (quick) / 2 (thorough) times from a default policy (sticky or rotating), capped at 60/400 schedules, + 6/20 random + 3/10 PCT schedules; yield points = every acquisition of the critical mutex, condvar wait/notify, cutoff polls (per layer) and optionally cache reads/writes and dominance queries. A quarter of the cases change the thread count through with_nb_threads after construction. A quarter of the shards run free threads (2..16) with injected delays on small instances. Verdict: is_exact and value == exhaustive optimum, no panic. Non-trivial = schedule in which >= 2 different workers processed >= 1 node each; distinct by (instance, configuration, hash of the (worker, site) grant sequence).",
         "level_text": "Exploration of interleavings of the real threads: thousands of distinct schedules per run, exhaustive within the deviation bound on each tiny instance, each replayable from its grant list.",
         "level_note": "Interleavings inside one compilation are at layer granularity (cutoff poll, cache operations); finer interleavings of DashMap operations only through stress/TSan/Miri. Needs the hooks (feature xgillard_ddo_verif).",
         "assumptions": COMMON_ASSUMPTIONS + ["between two scheduling decisions exactly one worker makes progress; woken waiters only re-acquire the mutex and return Starvation before their next yield"],
